@@ -274,6 +274,10 @@ class _VersionIndependentUnmarshaller:
         if n < 0:
             d = long(d * -1)
 
+        if magic_int2tuple(self.magic_int) >= (3, 0):
+            # Python 3 has one integer type; only Python 2 bytecode has longs
+            d = int(d)
+
         return self.r_ref(d, save_ref)
 
     # Python 3.4 removed this.
